@@ -41,7 +41,7 @@ DESTS = ['dtn://a/x', 'dtn://a/xy', 'dtn://a/y', 'dtn://a/', 'dtn://b/svc', 'dtn
 PATTERNS = [r'dtn://a/x$', r'dtn://a/x.*', r'dtn://a/.*', r'dtn://a/y$', r'dtn://b/svc$', r'dtn://b/.*', r'dtn://.*', r'ipn:5\.1$',
             r'ipn:5\..*', r'ipn:.*', r'dtn://me/.*', r'dtn://c/q$', r'dtn://[ab]/.*']
 ACTIONS = ['deliver', 'forward', 'delete']
-SOURCES = ['dtn://s1/', 'dtn://s1/a', 'dtn://s2/', 'ipn:9.1', 'ipn:9.2', 'dtn://s1/a?', 'dtn://s1/a#', 'dtn://me/#']
+SOURCES = ['dtn://s1/', 'dtn:none', 'dtn://s1/a', 'dtn://s2/', 'ipn:9.1', 'ipn:9.2', 'dtn://s1/a?', 'dtn://s1/a#', 'dtn://me/#']
 
 
 def cases(tier, seed):
@@ -114,6 +114,15 @@ def _gen_history(rng, length):
             # a copy damaged in transit (CRC failure) arrives first: it is dropped and leaves no trace, the intact copy is processed
             hist.append(dict(item, tag='damaged', corrupt=True))
         hist.append(item)
+    # the same bundle in a second shape: after it arrived whole, a complete set of its fragments arrives as well (a forwarder on
+    # another path fragmented it).  The pieces are new identities; the bundle they add up to is not, it is acted on once.
+    cands = [it for it in hist if it['frag'] is None and it.get('admin') is None and not it.get('corrupt') and it['plen'] >= 9 and it['src'] != NODE]
+    if cands and rng.random() < 0.6:
+        orig = rng.choice(cands)
+        orig['uid'] = 'whole-%d' % hist.index(orig)
+        cut = rng.randint(1, orig['plen'] - 1)
+        for (lo, hi) in ((0, cut), (cut, orig['plen'])):
+            hist.append(dict(orig, frag=(lo, orig['plen']), plen=hi - lo, tag='piece', piece_of=orig['uid'], whole_plen=orig['plen']))
     return hist
 
 
@@ -167,6 +176,11 @@ def run_history(table, hist, obs, node_id=None, via_file=False):
     kinds = set()
     for step, item in enumerate(hist):
         payload = bytes(((pos * 17) ^ step ^ 0x33) & 0xFF for pos in range(item['plen']))
+        if item.get('piece_of') is not None:
+            step0 = next(idx for idx, other in enumerate(hist) if other.get('uid') == item['piece_of'] and other['frag'] is None)
+            whole = bytes(((pos * 17) ^ step0 ^ 0x33) & 0xFF for pos in range(item['whole_plen']))
+            payload = whole[item['frag'][0]:item['frag'][0] + item['plen']]
+            obs['pieces_of_a_bundle_seen_whole'] = obs.get('pieces_of_a_bundle_seen_whole', 0) + 1
         enc = _encode(item, payload)
         if item.get('corrupt'):
             # flip one bit of the last payload octet (the payload block carries a CRC)
